@@ -967,7 +967,11 @@ func (e *evalEnv) evalCall(n *ast.CallExpr) Value {
 				args := []Value{recv}
 				for k, a := range n.Args {
 					av := e.eval(a)
-					av.T = sig.Params().At(k).Type()
+					pt := sig.Params().At(k).Type()
+					if av.T == untypedInt {
+						av = Value{T: pt, L: []*Term{c.litTo(av.L[0], LayoutOf(pt).Leaves[0].Sort)}}
+					}
+					av.T = pt
 					args = append(args, av)
 				}
 				var resT types.Type = sig.Results()
